@@ -21,6 +21,7 @@ type replayCase struct {
 	Tag     string            `json:"tag"`
 	Inputs  map[string]uint64 `json:"inputs"`
 	Tier    string            `json:"tier"`
+	Race    bool              `json:"race,omitempty"`
 }
 
 type replayFile struct {
@@ -54,6 +55,15 @@ func runNative(mod moduleSpec, pkgRel string, cases []replayCase, harnessNames m
 	os.WriteFile(casesPath, cj, 0o644)
 
 	args := []string{"test", "-vet=off", "-count=1", "-overlay", ovPath, "-run", "^TestVerifReplay$", "-timeout", fmt.Sprintf("%ds", int(timeout.Seconds())), "-v"}
+	useRace := false
+	for _, c := range cases {
+		if c.Kind == "violation" && strings.HasPrefix(c.Tag, "no-data-race") || c.Race {
+			useRace = true
+		}
+	}
+	if useRace {
+		args = append(args, "-race")
+	}
 	if mod.name == "cmd" {
 		args = append(args, "-modfile="+cmdModfile(scratch))
 	}
@@ -61,11 +71,19 @@ func runNative(mod moduleSpec, pkgRel string, cases []replayCase, harnessNames m
 	cmd := exec.Command("go", args...)
 	cmd.Dir = mod.dir
 	cmd.Env = append(goEnv(), "VERIF_REPLAY="+casesPath)
+	if useRace {
+		cmd.Env = append(cmd.Env, "CGO_ENABLED=1")
+	}
 	var out bytes.Buffer
 	cmd.Stdout = &out
 	cmd.Stderr = &out
 	runErr := cmd.Run()
 	res := map[string][]string{}
+	if useRace && strings.Contains(out.String(), "WARNING: DATA RACE") {
+		for _, c := range cases {
+			res[c.ID] = append(res[c.ID], "race-detected")
+		}
+	}
 	for _, l := range strings.Split(out.String(), "\n") {
 		l = strings.TrimSpace(l)
 		if i := strings.Index(l, "VERIF-REPLAY "); i >= 0 {
@@ -119,9 +137,13 @@ func finish(prop, tier string, results []*harnessResult, known map[string]bool, 
 	n := 0
 	add := func(r *harnessResult, kind, tag string, in map[string]uint64, v *Violation, cw *CoverWitness) {
 		n++
-		p := &pending{c: replayCase{ID: fmt.Sprintf("%d", n), Harness: r.h.Name, Module: r.ref.mod, PkgRel: r.ref.pkgRel, Kind: kind, Tag: tag, Inputs: in, Tier: tier}, v: v, cov: cw, res: r}
+		p := &pending{c: replayCase{ID: fmt.Sprintf("%d", n), Harness: r.h.Name, Module: r.ref.mod, PkgRel: r.ref.pkgRel, Kind: kind, Tag: tag, Inputs: in, Tier: tier, Race: v != nil && v.Kind == "race"}, v: v, cov: cw, res: r}
 		all = append(all, p)
 		k := r.ref.mod + "|" + r.ref.pkgRel
+		if p.c.Race {
+			// one native run per race counterexample: the race detector reports per process
+			k += "|race" + p.c.ID
+		}
 		byPkg[k] = append(byPkg[k], p)
 	}
 	for _, r := range results {
@@ -154,7 +176,7 @@ func finish(prop, tier string, results []*harnessResult, known map[string]bool, 
 	replayNotes := []string{}
 	if doReplay && len(all) > 0 {
 		for k, ps := range byPkg {
-			parts := strings.SplitN(k, "|", 2)
+			parts := strings.SplitN(k, "|", 3)
 			var mod moduleSpec
 			for _, m := range modules() {
 				if m.name == parts[0] {
@@ -174,7 +196,9 @@ func finish(prop, tier string, results []*harnessResult, known map[string]bool, 
 				switch p.c.Kind {
 				case "violation", "known":
 					ok := false
-					if p.v.Kind == "panic" {
+					if p.v.Kind == "race" {
+						ok = hasLine(lines, "race-detected")
+					} else if p.v.Kind == "panic" {
 						ok = hasLine(lines, "panic")
 					} else if strings.HasPrefix(p.v.Tag, "alloc-bounded") {
 						ok = hasLine(lines, "assert-failed alloc-bounded")
@@ -455,7 +479,7 @@ func cmdReplay(args []string) int {
 		for _, l := range out[c.ID] {
 			fmt.Println("VERIF-REPLAY", l)
 		}
-		if len(out[c.ID]) == 0 {
+		if len(out[c.ID]) == 0 || os.Getenv("VERIF_DEBUG") != "" {
 			fmt.Println(tail(raw, 3000))
 			if err != nil {
 				fmt.Println("error:", err)
